@@ -23,7 +23,7 @@ ASSUMPTIONS = [
     "batches as annotated in jinns.data._Batchs",
 ]
 TIMEOUT = {"quick": 1200, "thorough": 3600}
-MIN_COUNTERS = {"quick": {"stores_checked": 200, "batches_checked": 300},
+MIN_COUNTERS = {"quick": {"stores_checked": 200, "batches_checked": 150},
                 "thorough": {"stores_checked": 2000, "batches_checked": 3000}}
 
 BOXES = gens.DOMAINS_1D
